@@ -36,6 +36,10 @@ class Exec(object):
         self.bounded = []       # notes on bounded unrolling
 
     # ------------------------------------------------------------ utilities
+    def default_unroll(self, n, fr):
+        """a loop without a sidecar invariant: bounded unrolling (recorded, never counted as proved)"""
+        return 3
+
     def val(self, v, st):
         return [('val', v, st)]
 
@@ -511,6 +515,15 @@ class Exec(object):
         txt = ast.unparse(ce)
         if txt.endswith('.lock') or txt == 'self.lock':
             return self.exec_block(n.body, st, fr)
+        if isinstance(ce, ast.Call) and isinstance(ce.func, ast.Name) and ce.func.id == 'open' and 'open' in self.reg.externs:
+            # with open(...) as f: the file object comes from the extern model; __exit__ closes it
+            def body(v, s):
+                outs = self.assign(item.optional_vars, v, s, fr) if item.optional_vars is not None else [('next', None, s)]
+                res = []
+                for k, x, s1 in outs:
+                    res.extend(self.exec_block(n.body, s1, fr) if k == 'next' else [(k, x, s1)])
+                return res
+            return self.bind_stmt(self.eval(ce, st, fr), body)
         if txt.startswith('contextlib.suppress(') or txt.startswith('suppress('):
             classes = []
             for a in ce.args:
@@ -795,6 +808,10 @@ class Exec(object):
                 o.fields[attr] = VStr(z3.String(fresh_name('reason')), 'str')
                 return self.val(o.fields[attr], st)
         if isinstance(o, VOpaque):
+            nm = '%s_attr_%s' % (o.cls, attr)
+            if nm in self.reg.specfuns:
+                sf = self.reg.specfuns[nm]
+                return self.val(wrap(sf.apply(o.ident), sf.restype), st)
             return self.val(VPy(('opaquemethod', o, attr)), st)
         if isinstance(o, (VStr, VInt, VTuple, VSeq)):
             return self.val(VPy(('primmethod', o, attr)), st)
